@@ -68,24 +68,19 @@ def plainOp (vs : List Nat) (idx : Nat) (op : String) : Nat × String :=
   | 't' => (idx, dots vs)
   | _ => (idx, "BAD-OP")
 
-/-- Is the operation inside the domain of the theorems (`OpOk`: `advance_by`'s `idx + k` does not
-wrap)?  Outside it the model follows the code, not the plain sequence, by design. -/
-def opOk (n : Nat) (op : String) : Bool := op.front != 'b' || decide (n + argOf op < 2 ^ 64)
-
 /-- Run the session; accumulates answers in reverse. `bad` = first op where model ≠ plain spec
-(cross-check, only while every operation so far is inside the theorems' domain). -/
+(cross-check). -/
 def session (ef : EliasFano) (vs : List Nat) :
-    List String → Nat → Cursor → Nat → List String → Bool → Option String →
+    List String → Nat → Cursor → Nat → List String → Option String →
       Option (List String × Option String)
-  | [], _, _, _, acc, _, bad => some (acc.reverse, bad)
-  | op :: ops, n, c, idx, acc, chk, bad =>
+  | [], _, _, _, acc, bad => some (acc.reverse, bad)
+  | op :: ops, n, c, idx, acc, bad =>
     match modelOp ef c op with
     | none => none
     | some (c', ans) =>
       let (idx', want) := plainOp vs idx op
-      let chk := chk && opOk vs.length op
-      let bad := if chk ∧ bad.isNone ∧ want ≠ ans then some s!"MODEL-SPEC@{n}:{want}" else bad
-      session ef vs ops (n + 1) c' idx' (ans :: acc) chk bad
+      let bad := if bad.isNone ∧ want ≠ ans then some s!"MODEL-SPEC@{n}:{want}" else bad
+      session ef vs ops (n + 1) c' idx' (ans :: acc) bad
 
 def exec (a : List String) : String :=
   match a with
@@ -95,7 +90,7 @@ def exec (a : List String) : String :=
     match build R vs with
     | none => "PANIC"
     | some ef =>
-      match session ef vs ops 0 (cursor ef) 0 [] true none with
+      match session ef vs ops 0 (cursor ef) 0 [] none with
       | none => "PANIC"
       | some (answers, bad) =>
         let body := if answers.isEmpty then "-" else ",".intercalate answers
